@@ -53,6 +53,10 @@ func Probes(prop string) []*Case {
 		meth("Do", ps(par("string", Basic("string")), par("s", Basic("string"))), nil)}}), Cfg: Cfg{Dest: "implicit", Args: []string{"P"}}})
 	add("KF-17", []string{"C12", "C01", "C09"}, &Case{Src: newSrc("probe17", one, Iface{Name: "P", OneFile: true, TParams: []TypeParam{{Name: "t", Constraint: "any"}},
 		Methods: []Method{meth("Do", ps(par("_", Named(0, "T")), par("v", TParam("t"))), nil)}}), Cfg: Cfg{Dest: "implicit", Args: []string{"P"}}})
+	kw := []Pkg{dep("y", "p", "go"), dep("y", "q", "y")}
+	add("KF-18", []string{"C11", "C01"}, &Case{Src: newSrc("probe18", kw, Iface{Name: "P", Methods: []Method{
+		meth("M1", ps(par("v", Named(0, "T"))), nil), meth("M2", ps(par("v", Named(1, "T"))), nil)}, Aliases: []map[int]string{{}, {}}}),
+		Cfg: Cfg{Dest: "implicit", Fmt: "noop", Args: []string{"P"}}})
 	add("KF-16", []string{"C01", "C11"}, &Case{NoPredict: true, Src: &SrcPkg{Name: "probe16", Pkgs: []Pkg{}, Raw: map[string]string{"p.go": "package probe16\n\nimport \"unsafe\"\n\ntype P interface {\n\tPtr(p unsafe.Pointer) uintptr\n}\n"}},
 		Cfg: Cfg{Dest: "implicit", Args: []string{"P"}}})
 	if prop == "C15" {
